@@ -696,4 +696,312 @@ theorem epoch_ids_increase (s s' : St) (h : Int) (stk : Staking) (hs : EpochsOK 
           exact Or.inr ⟨_, rfl, rfl, rfl, rfl, by intro e he; cases he; exact hh⟩
     · simp only [hh, if_false, Res.ok.injEq] at he; subst he; exact Or.inl (by rw [h2]; rfl)
 
+/-- non-vacuity: a non-trivial state (two epochs 1,2 with their gauges) satisfies the invariant, and a state that
+    keeps a gauge of the pruned epoch 0→1 does not -/
+example : EpochsOK { epochs := [⟨2, 4, 6, [⟨1, 0, 50⟩]⟩, ⟨3, 6, 8, [⟨2, 0, 70⟩, ⟨2, 1, 5⟩]⟩],
+                     gauges := [⟨1, 0, 50⟩, ⟨2, 0, 70⟩, ⟨2, 1, 5⟩] } :=
+  ⟨Or.inr (Or.inr ⟨_, _, rfl, rfl⟩), by decide, by decide⟩
+example : ¬ EpochsOK { epochs := [⟨2, 4, 6, [⟨1, 0, 50⟩]⟩, ⟨3, 6, 8, [⟨2, 0, 70⟩]⟩],
+                       gauges := [⟨0, 0, 9⟩, ⟨1, 0, 50⟩, ⟨2, 0, 70⟩] } := fun h => by
+  have := h.stored; revert this; decide
+
+/-! ## each_token_once -/
+
+def sumRes : Results → Int
+  | [] => 0
+  | x :: t => x.2.raw + sumRes t
+
+def NonnegRes : Results → Prop
+  | [] => True
+  | x :: t => 0 ≤ x.2.raw ∧ NonnegRes t
+
+def sumCounts : List (Nat × Int) → Int
+  | [] => 0
+  | x :: t => x.2 + sumCounts t
+
+theorem addTo_sum (r : Results) (k : Nat) (v : Dec) : sumRes (addTo r k v) = sumRes r + v.raw := by
+  induction r with
+  | nil => simp [addTo, sumRes]
+  | cons x t ih =>
+    obtain ⟨k', v'⟩ := x
+    unfold addTo
+    by_cases h1 : k < k'
+    · simp only [h1, if_true, sumRes]; omega
+    · by_cases h2 : k = k'
+      · subst h2; simp only [Nat.lt_irrefl, if_false, if_true, sumRes, Dec.add]; omega
+      · simp only [h1, h2, if_false, sumRes, ih]; omega
+
+theorem addTo_nonneg (r : Results) (k : Nat) (v : Dec) (hr : NonnegRes r) (hv : 0 ≤ v.raw) :
+    NonnegRes (addTo r k v) := by
+  induction r with
+  | nil => simp [addTo, NonnegRes, hv]
+  | cons x t ih =>
+    obtain ⟨k', v'⟩ := x
+    obtain ⟨h0, ht⟩ := hr
+    unfold addTo
+    by_cases h1 : k < k'
+    · simp only [h1, if_true, NonnegRes]; exact ⟨hv, h0, ht⟩
+    · by_cases h2 : k = k'
+      · subst h2
+        simp only [Nat.lt_irrefl, if_false, if_true, NonnegRes, Dec.add]
+        simp only [] at h0
+        exact ⟨by omega, ht⟩
+      · simp only [h1, h2, if_false, NonnegRes]; exact ⟨h0, ih ht⟩
+
+/-- one voter's (or validator's) power spread over its weights: the results grow by at most power·Σweights plus half
+    an ulp per multiplication -/
+theorem addWeighted_bound (p : Dec) (hp : 0 ≤ p.raw) (pws : List (Nat × Dec)) (hw : ∀ x ∈ pws, 0 ≤ x.2.raw) :
+    ∀ r : Results, NonnegRes r →
+      NonnegRes (addWeighted p pws r) ∧
+      2 * PREC * sumRes (addWeighted p pws r) ≤ 2 * PREC * sumRes r + 2 * (p.raw * sumRaw pws) + PREC * (pws.length : Int) := by
+  induction pws with
+  | nil => intro r hr; simp [addWeighted, sumRaw, hr]
+  | cons x t ih =>
+    intro r hr
+    obtain ⟨k, w⟩ := x
+    have hw0 : 0 ≤ w.raw := hw (k, w) List.mem_cons_self
+    have hprod : 0 ≤ p.raw * w.raw := Int.mul_nonneg hp hw0
+    obtain ⟨m1, _, m3⟩ := mul_nonneg_bounds p w hprod
+    obtain ⟨i1, i2⟩ := ih (fun y hy => hw y (List.mem_cons_of_mem _ hy)) (addTo r k (p.mul w)) (addTo_nonneg r k _ hr m3)
+    simp only [addWeighted, sumRaw, List.length_cons]
+    refine ⟨i1, ?_⟩
+    rw [addTo_sum] at i2
+    have := two_HALF
+    have e1 : p.raw * (w.raw + sumRaw t) = p.raw * w.raw + p.raw * sumRaw t := by ring
+    push_cast
+    rw [e1]
+    nlinarith
+
+theorem toCounts_le (r : Results) (hr : NonnegRes r) : PREC * sumCounts (toCounts r) ≤ sumRes r := by
+  induction r with
+  | nil => simp [toCounts, sumCounts, sumRes]
+  | cons x t ih =>
+    obtain ⟨h0, ht⟩ := hr
+    obtain ⟨t1, _, _⟩ := truncateInt_nonneg_bounds x.2 h0
+    have := ih ht
+    simp only [toCounts, List.map_cons, sumCounts, sumRes] at this ⊢
+    rw [Int.mul_add]
+    omega
+
+/-- accumulator invariant of both tally loops -/
+structure AccOK (a : Acc) : Prop where
+  res_nn : NonnegRes a.res
+  tot_nn : 0 ≤ a.total.raw
+  bound : 2 * PREC * sumRes a.res ≤ 2 * PREC * a.total.raw + PREC * (a.muls : Int)
+
+/-- what the tally assumes of the staking view: tokens ≥ 0, shares > 0 (a bonded validator has delegations) -/
+def ValsOK (vals : List ValInfo) : Prop :=
+  ∀ v ∈ vals, 0 ≤ v.bonded ∧ 0 < v.shares.raw ∧ ValidWeights v.weights
+
+theorem validWeights_nil : ValidWeights [] := ⟨[], rfl, by simp, by simp [sumRaw]; exact le_of_lt PREC_pos⟩
+
+theorem findVal_mem (vals : List ValInfo) (a : Addr) (v : ValInfo) (h : findVal vals a = some v) : v ∈ vals := by
+  induction vals with
+  | nil => simp [findVal] at h
+  | cons x t ih =>
+    unfold findVal at h
+    by_cases hx : x.addr = a
+    · simp only [hx, if_true, Option.some.injEq] at h; rw [← h]; exact List.mem_cons_self
+    · simp only [hx, if_false] at h; exact List.mem_cons_of_mem _ (ih h)
+
+theorem updVal_mem (vals : List ValInfo) (a : Addr) (f : ValInfo → ValInfo) (x : ValInfo)
+    (h : x ∈ updVal vals a f) : x ∈ vals ∨ ∃ v ∈ vals, x = f v := by
+  induction vals with
+  | nil => simp [updVal] at h
+  | cons y t ih =>
+    unfold updVal at h
+    by_cases hy : y.addr = a
+    · simp only [hy, if_true] at h
+      rcases List.mem_cons.mp h with h | h
+      · exact Or.inr ⟨y, List.mem_cons_self, h⟩
+      · exact Or.inl (List.mem_cons_of_mem _ h)
+    · simp only [hy, if_false] at h
+      rcases List.mem_cons.mp h with h | h
+      · exact Or.inl (by rw [h]; exact List.mem_cons_self)
+      · rcases ih h with h | ⟨v, hv, h⟩
+        · exact Or.inl (List.mem_cons_of_mem _ h)
+        · exact Or.inr ⟨v, List.mem_cons_of_mem _ hv, h⟩
+
+theorem valsOK_upd (vals : List ValInfo) (a : Addr) (f : ValInfo → ValInfo) (hv : ValsOK vals)
+    (hf : ∀ v, 0 ≤ v.bonded ∧ 0 < v.shares.raw ∧ ValidWeights v.weights →
+               0 ≤ (f v).bonded ∧ 0 < (f v).shares.raw ∧ ValidWeights (f v).weights) :
+    ValsOK (updVal vals a f) := by
+  intro x hx
+  rcases updVal_mem _ _ _ _ hx with h | ⟨v, hvm, rfl⟩
+  · exact hv x h
+  · exact hf v (hv v hvm)
+
+theorem power_nonneg (sh : Dec) (b : Int) (vs : Dec) (h1 : 0 ≤ sh.raw) (h2 : 0 ≤ b) (h3 : 0 < vs.raw) :
+    0 ≤ (Gauge.power sh b vs).raw := by
+  unfold Gauge.power Dec.quo Dec.mulInt
+  simp only []
+  have hn : 0 ≤ sh.raw * b * PREC * PREC := by have := PREC_pos; positivity
+  rw [tquo_nonneg_eq hn (le_of_lt h3)]
+  exact (chopRound_nonneg_bounds _ (Int.ediv_nonneg hn (le_of_lt h3))).2.2
+
+/-- applying one power to valid weights keeps the invariant -/
+theorem accOK_add (a : Acc) (p : Dec) (pws : List (Nat × Dec)) (ha : AccOK a) (hp : 0 ≤ p.raw)
+    (hw : ∀ x ∈ pws, 0 ≤ x.2.raw) (hs : sumRaw pws ≤ PREC) (vals : List ValInfo) :
+    AccOK { vals := vals, res := addWeighted p pws a.res, total := a.total.add p, muls := a.muls + pws.length } := by
+  obtain ⟨b1, b2⟩ := addWeighted_bound p hp pws hw a.res ha.res_nn
+  refine ⟨b1, by simp only [Dec.add]; have := ha.tot_nn; omega, ?_⟩
+  have h3 := ha.bound
+  have hP := PREC_pos
+  have : p.raw * sumRaw pws ≤ p.raw * PREC := Int.mul_le_mul_of_nonneg_left hs hp
+  simp only [Dec.add]
+  push_cast
+  nlinarith
+
+theorem delegStep_ok {ws : List PoolWeight} {acc acc' : Acc} {d : Addr × Dec} (ha : AccOK acc) (hv : ValsOK acc.vals)
+    (hw : ValidWeights ws) (hd : 0 ≤ d.2.raw) (h : delegStep ws acc d = .ok acc') : AccOK acc' ∧ ValsOK acc'.vals := by
+  unfold delegStep at h
+  cases hf : findVal acc.vals d.1 with
+  | none => simp only [hf, Res.ok.injEq] at h; subst h; exact ⟨ha, hv⟩
+  | some val =>
+    simp only [hf] at h
+    obtain ⟨hb, hsh, _⟩ := hv val (findVal_mem _ _ _ hf)
+    have hne : ¬ val.shares.raw = 0 := by omega
+    simp only [hne, if_false] at h
+    obtain ⟨pws, hp, hnn, hsum⟩ := hw
+    simp only [hp, Res.ok.injEq] at h
+    subst h
+    refine ⟨accOK_add acc _ pws ha (power_nonneg _ _ _ hd hb hsh) hnn hsum _, ?_⟩
+    exact valsOK_upd _ _ _ hv (fun v hv => hv)
+
+theorem delegLoop_ok {ws : List PoolWeight} (hw : ValidWeights ws) : ∀ (ds : List (Addr × Dec)) (acc acc' : Acc),
+    AccOK acc → ValsOK acc.vals → (∀ d ∈ ds, 0 ≤ d.2.raw) → delegLoop ws ds acc = .ok acc' →
+    AccOK acc' ∧ ValsOK acc'.vals := by
+  intro ds
+  induction ds with
+  | nil => intro acc acc' ha hv _ h; simp only [delegLoop, Res.ok.injEq] at h; subst h; exact ⟨ha, hv⟩
+  | cons d t ih =>
+    intro acc acc' ha hv hd h
+    simp only [delegLoop] at h
+    obtain ⟨a1, h1, h2⟩ := Bank.bind_ok h
+    obtain ⟨ha1, hv1⟩ := delegStep_ok ha hv hw (hd d List.mem_cons_self) h1
+    exact ih a1 acc' ha1 hv1 (fun x hx => hd x (List.mem_cons_of_mem _ hx)) h2
+
+theorem voteStep_ok {dels : List (Addr × Addr × Dec)} {acc acc' : Acc} {v : Vote} (ha : AccOK acc) (hv : ValsOK acc.vals)
+    (hw : ValidWeights v.weights) (hd : ∀ d ∈ dels, 0 ≤ d.2.2.raw) (h : voteStep dels acc v = .ok acc') :
+    AccOK acc' ∧ ValsOK acc'.vals := by
+  have hdels : ∀ d ∈ delsOf dels v.sender, 0 ≤ d.2.raw := by
+    intro d hdm
+    simp only [delsOf, List.mem_map, List.mem_filter] at hdm
+    obtain ⟨x, ⟨hx, _⟩, rfl⟩ := hdm
+    exact hd x hx
+  have key : ∀ vals1, ValsOK vals1 →
+      delegLoop v.weights (delsOf dels v.sender) { acc with vals := vals1 } = .ok acc' → AccOK acc' ∧ ValsOK acc'.vals :=
+    fun vals1 hv1 h1 => delegLoop_ok hw _ { acc with vals := vals1 } _ ⟨ha.res_nn, ha.tot_nn, ha.bound⟩ hv1 hdels h1
+  unfold voteStep at h
+  refine key _ ?_ h
+  cases findVal acc.vals v.sender with
+  | none => exact hv
+  | some _ => exact valsOK_upd _ _ _ hv (fun x hx => ⟨hx.1, hx.2.1, hw⟩)
+
+theorem voteLoop_ok {dels : List (Addr × Addr × Dec)} (hd : ∀ d ∈ dels, 0 ≤ d.2.2.raw) :
+    ∀ (vs : List Vote) (acc acc' : Acc), AccOK acc → ValsOK acc.vals → (∀ v ∈ vs, ValidWeights v.weights) →
+    voteLoop dels vs acc = .ok acc' → AccOK acc' ∧ ValsOK acc'.vals := by
+  intro vs
+  induction vs with
+  | nil => intro acc acc' ha hv _ h; simp only [voteLoop, Res.ok.injEq] at h; subst h; exact ⟨ha, hv⟩
+  | cons v t ih =>
+    intro acc acc' ha hv hw h
+    simp only [voteLoop] at h
+    obtain ⟨a1, h1, h2⟩ := Bank.bind_ok h
+    obtain ⟨ha1, hv1⟩ := voteStep_ok ha hv (hw v List.mem_cons_self) hd h1
+    exact ih a1 acc' ha1 hv1 (fun x hx => hw x (List.mem_cons_of_mem _ hx)) h2
+
+theorem valStep_ok {acc acc' : Acc} {val : ValInfo} (ha : AccOK acc)
+    (hval : 0 ≤ val.bonded ∧ 0 < val.shares.raw ∧ ValidWeights val.weights)
+    (hded : val.deductions.raw ≤ val.shares.raw) (h : valStep acc val = .ok acc') : AccOK acc' := by
+  unfold valStep at h
+  by_cases he : val.weights.isEmpty = true
+  · simp only [he, if_true, Res.ok.injEq] at h; subst h; exact ha
+  · simp only [he, Bool.false_eq_true, if_false] at h
+    have hne : ¬ val.shares.raw = 0 := by omega
+    simp only [hne, if_false] at h
+    obtain ⟨pws, hp, hnn, hsum⟩ := hval.2.2
+    simp only [hp, Res.ok.injEq] at h
+    subst h
+    have hsub : 0 ≤ (val.shares.sub val.deductions).raw := by simp only [Dec.sub]; omega
+    exact accOK_add acc _ pws ha (power_nonneg _ _ _ hsub hval.1 hval.2.1) hnn hsum _
+
+theorem valLoop_ok : ∀ (vs : List ValInfo) (acc acc' : Acc), AccOK acc →
+    (∀ v ∈ vs, (0 ≤ v.bonded ∧ 0 < v.shares.raw ∧ ValidWeights v.weights) ∧ v.deductions.raw ≤ v.shares.raw) →
+    valLoop vs acc = .ok acc' → AccOK acc' := by
+  intro vs
+  induction vs with
+  | nil => intro acc acc' ha _ h; simp only [valLoop, Res.ok.injEq] at h; subst h; exact ha
+  | cons v t ih =>
+    intro acc acc' ha hv h
+    simp only [valLoop] at h
+    obtain ⟨a1, h1, h2⟩ := Bank.bind_ok h
+    have := hv v List.mem_cons_self
+    exact ih a1 acc' (valStep_ok ha this.1 this.2 h1) (fun x hx => hv x (List.mem_cons_of_mem _ hx)) h2
+
+/-- hypotheses about the staking view (boundary parameters) -/
+structure StakingOK (stk : Staking) : Prop where
+  vals_ok : ∀ v ∈ stk.vals, 0 ≤ v.2.1 ∧ 0 < v.2.2.raw
+  dels_nn : ∀ d ∈ stk.dels, 0 ≤ d.2.2.raw
+
+theorem initVals_ok (stk : Staking) (h : StakingOK stk) : ValsOK (initVals stk.vals) := by
+  intro v hv
+  simp only [initVals, List.mem_map] at hv
+  obtain ⟨x, hx, rfl⟩ := hv
+  exact ⟨(h.vals_ok x hx).1, (h.vals_ok x hx).2, validWeights_nil⟩
+
+/-- the staking invariant the second loop relies on: after the first loop no validator has more deductions than
+    shares (the delegations of distinct delegators to a validator sum to at most its DelegatorShares) -/
+def DeductionsLeShares (stk : Staking) (votes : List Vote) : Prop :=
+  ∀ a1, voteLoop stk.dels votes { vals := initVals stk.vals, res := [], total := Dec.zero, muls := 0 } = .ok a1 →
+    ∀ v ∈ a1.vals, v.deductions.raw ≤ v.shares.raw
+
+theorem tallyAcc_ok {stk : Staking} {votes : List Vote} {a : Acc} (hs : StakingOK stk)
+    (hv : ∀ v ∈ votes, ValidWeights v.weights) (hd : DeductionsLeShares stk votes)
+    (h : tallyAcc stk votes = .ok a) : AccOK a := by
+  unfold tallyAcc at h
+  obtain ⟨a1, h1, h2⟩ := Bank.bind_ok h
+  have h0 : AccOK { vals := initVals stk.vals, res := [], total := Dec.zero, muls := 0 } :=
+    ⟨trivial, le_refl _, by simp [sumRes, Dec.zero]⟩
+  obtain ⟨ha1, hv1⟩ := voteLoop_ok hs.dels_nn votes _ a1 h0 (initVals_ok stk hs) hv h1
+  exact valLoop_ok a1.vals a1 a ha1 (fun v hvm => ⟨hv1 v hvm, hd a1 h1 v hvm⟩) h2
+
+/-- each_token_once, part 1 (no assumption on the exchange rate): the gauge counts of a tally sum to at most the total
+    voting power the tally itself accumulated, plus half an ulp per weight multiplication:
+    2·10^18·Σ counts ≤ 2·totalVotingPower.raw + #multiplications. -/
+theorem counts_le_voting_power {stk : Staking} {votes : List Vote} {a : Acc} (hs : StakingOK stk)
+    (hv : ∀ v ∈ votes, ValidWeights v.weights) (hd : DeductionsLeShares stk votes)
+    (h : tallyAcc stk votes = .ok a) :
+    2 * PREC * sumCounts (toCounts a.res) ≤ 2 * a.total.raw + (a.muls : Int) := by
+  have ha := tallyAcc_ok hs hv hd h
+  have h1 := toCounts_le a.res ha.res_nn
+  have h2 := ha.bound
+  have hP := PREC_pos
+  have : PREC * (2 * PREC * sumCounts (toCounts a.res)) ≤ PREC * (2 * a.total.raw + (a.muls : Int)) := by nlinarith
+  exact le_of_mul_le_mul_left this hP
+
+/-- each_token_once (explicit rounding hypothesis form): if the voting power the tally accumulated does not exceed the
+    bonded tokens (`total ≤ totalBonded`, proved below from shares = tokens) and fewer than 2·10^18 weight
+    multiplications were performed, then Σ_pools count ≤ totalBonded — every bonded token is counted at most once. -/
+theorem each_token_once_of_power {stk : Staking} {votes : List Vote} {counts : List (Nat × Int)} (hs : StakingOK stk)
+    (hv : ∀ v ∈ votes, ValidWeights v.weights) (hd : DeductionsLeShares stk votes)
+    (hpow : ∀ a, tallyAcc stk votes = .ok a → a.total.raw ≤ PREC * stk.totalBonded ∧ (a.muls : Int) < 2 * PREC)
+    (hb : 0 ≤ stk.totalBonded)
+    (h : tally stk votes = .ok counts) : sumCounts counts ≤ stk.totalBonded := by
+  unfold tally at h
+  obtain ⟨a, h1, h2⟩ := Bank.bind_ok h
+  by_cases hz : stk.totalBonded = 0
+  · simp only [hz, if_true, Res.ok.injEq] at h2; subst h2; simp [sumCounts, hz]
+  · simp only [hz, if_false, Res.ok.injEq] at h2
+    subst h2
+    have hc := counts_le_voting_power hs hv hd h1
+    obtain ⟨hp1, hp2⟩ := hpow a h1
+    have hP := PREC_pos
+    by_contra hgt
+    rw [not_le] at hgt
+    have h5 : stk.totalBonded + 1 ≤ sumCounts (toCounts a.res) := hgt
+    have : 2 * PREC * (stk.totalBonded + 1) ≤ 2 * PREC * sumCounts (toCounts a.res) := by
+      apply mul_le_mul_of_nonneg_left h5; positivity
+    nlinarith
+
 end Sunrise.C17
